@@ -3,6 +3,7 @@ Structural clauses (DESIGN.md section 4, C14)."""
 import re
 
 from c09 import r1 as nesting_discipline
+import common
 from common import user_call_kind
 
 LEVEL = 'other'
@@ -143,22 +144,13 @@ def r4(R4, cfg, F):
         R4.missing(cfg, 'Cache::load_owned_entry')
     b = F.body('asset::load_and_record')
     if b:
-        hr = [c for c in b.calls() if c.callee and c.callee.name == 'is_hot_reloaded']
-        rl = [c for c in b.calls() if c.callee and c.callee.name == 'reloader']
-        rc = [c for c in b.calls() if c.callee and c.callee.best == REC + 'record']
-        direct = [c for c in b.calls() if user_call_kind(c) == 'indirect']
-        ok = len(hr) == 1 and len(rl) == 1 and len(rc) == 1 and len(direct) == 1
+        ok, why_rec, rc_ = common.records_iff_hot_reloaded_and_reloader(b, REC + 'record')
         if ok:
-            sw1 = [bb for bb, t in b.terms() if t['k'] == 'switch' and b.access_path(t['discr']) == ['call@bb%d' % hr[0].bb]]
-            sw2 = b.primary_switch(rl[0].dest['l'])
-            ok = len(sw1) == 1 and sw2 is not None
-            if ok:
-                t1 = [d for d, lab in b.edges(sw1[0]) if lab != 'sw:0'][0]
-                t2 = b.variant_edge(sw2, 1)
-                ok = rc[0].bb not in b.reachable([0], removed_edges=[(sw1[0], t1)]) and rc[0].bb not in b.reachable([0], removed_edges=[(sw2, t2)])
-                # and the un-recorded direct load is not reachable once both conditions hold
-                ok = ok and direct[0].bb not in b.reachable([t2])
-                ok = ok and b.origins(rc[0].args[0]) <= {('call', rl[0].bb)}
+            # the un-recorded direct load is not reachable once both conditions hold: it lives on the other arms only
+            direct = [c for c in b.calls() if user_call_kind(c) == 'indirect']
+            g = common.guards_of(b, rc_.bb)
+            removed = [(sw, o) for sw, d, _, _ in g for o, _ in b.edges(sw) if o != d]
+            ok = len(direct) == 1 and direct[0].bb not in b.reachable([0], removed_edges=removed)
         R4.check(ok, cfg, b.path, 'nested-recording-iff-hot-reloaded-and-reloader', 'load_and_record must run the load inside records::record exactly when the type is hot-reloaded and the cache has a reloader (otherwise the reads belong to the outer record)', b.loc())
     else:
         R4.missing(cfg, 'asset::load_and_record')
